@@ -427,71 +427,129 @@ example : NoDigitlessForm [.str [49, 50], .str [51, 46, 53], .str [97, 98], .int
   simp at hs
   rcases hs with rfl | rfl | rfl <;> intro d hd <;> simp [scanDec, takeDigits, isDigit] at hd <;> subst hd <;> simp
 
-/-- C04.3b `rb_avg_eq_sum_div_numeric_count`, the group-by bucket (`stats avg(x) by g`), code as FIXED by patch c04-7:
-for every list of records the bucket's Sum cell is the mathematical sum of the int / float values and the average it
-answers is that sum divided by the number of records that HAVE such a value — events lacking x and text values do not
-enter the denominator.  count(x) is still the number of records of the bucket (blockresult.go:757, known finding). -/
-theorem rb_avg_eq_sum_div_numeric_count (vs : List Val) (h : absIntSum (nums noParse vs) < 9223372036854775808)
-    (hne : nums noParse vs ≠ []) :
+/-- C04.3b `rb_avg_eq_sum_div_numeric_count`, the group-by bucket (`stats avg(x), count(x) by g`), code as FIXED by the
+patches c04-7, c04-11 and c04-13: for every list of records the bucket's Sum cell is the mathematical sum of the values
+that are numbers — int, float and, like in the statistics without a by clause, strings that FastParseFloat reads as
+numbers — the average it answers is that sum divided by the number of records that HAVE such a value (events lacking x and
+text values do not enter the denominator), and count(x) is the number of records that have a value for x. -/
+theorem rb_avg_eq_sum_div_numeric_count (vs : List Val) (h : absIntSum (nums (parseFast exact) vs) < 9223372036854775808)
+    (hne : nums (parseFast exact) vs ≠ []) :
     ∃ b, foldRB exact vs = some b ∧
-      (resultRB exact b).avg = .flt (ratSum (nums noParse vs) / ((nums noParse vs).length : Rat)) ∧
-      (resultRB exact b).count = vs.length := by
-  rcases foldRB_sum vs h with ⟨hnil, _⟩ | ⟨b, hb, hn, hvne, hs, hc⟩
+      (resultRB exact b).avg = .flt (ratSum (nums (parseFast exact) vs) / ((nums (parseFast exact) vs).length : Rat)) ∧
+      (resultRB exact b).count = present vs := by
+  rcases foldRB_sum vs h with ⟨hnil, _⟩ | ⟨b, hb, hn, hvne, hs, hc, hx⟩
   · subst hnil; exact absurd rfl hne
-  · refine ⟨b, hb, ?_, by simp [resultRB, hn]⟩
-    have he : (nums noParse vs).isEmpty = false := by
-      cases hx : nums noParse vs with
+  · refine ⟨b, hb, ?_, by simp [resultRB, hx]⟩
+    have he : (nums (parseFast exact) vs).isEmpty = false := by
+      cases hx : nums (parseFast exact) vs with
       | nil => exact absurd hx hne
       | cons a r => rfl
-    have hlen : (nums noParse vs).length ≠ 0 := by
+    have hlen : (nums (parseFast exact) vs).length ≠ 0 := by
       intro hl; exact hne (List.length_eq_zero_iff.mp hl)
-    have hs' : b.sum = (sumSpec (nums noParse vs)).toCV := by rw [hs]; simp [rbSum, he]
-    have hr := sumSpec_toRat (nums noParse vs)
+    have hs' : b.sum = (sumSpec (nums (parseFast exact) vs)).toCV := by rw [hs]; simp [rbSum, he]
+    have hr := sumSpec_toRat (nums (parseFast exact) vs)
     simp only [resultRB, hs', hc]
-    cases hsp : sumSpec (nums noParse vs) <;> simp [hsp, Num.toCV, CV.float?, Num.toRat, hlen] at hr ⊢ <;> rw [hr]
+    cases hsp : sumSpec (nums (parseFast exact) vs) <;> simp [hsp, Num.toCV, CV.float?, Num.toRat, hlen] at hr ⊢ <;> rw [hr]
+
+/-- C04.3c `rb_count_eq_present` (patch c04-11), full strength — no guard at all: count(x) of a group is the number of its
+records that have a value for x (a number, numeric text or text), whatever the values are; same number as the statistics
+without a by clause report (`count_eq_present`) -/
+theorem rb_count_eq_present (vs : List Val) (hne : vs ≠ []) :
+    ∃ b, foldRB exact vs = some b ∧ (resultRB exact b).count = present vs ∧ b.n = vs.length := by
+  have key : ∀ vs : List Val, (vs = [] ∧ foldRB exact vs = none) ∨
+      (∃ b, foldRB exact vs = some b ∧ b.cx = present vs ∧ b.n = vs.length) := by
+    intro vs
+    induction vs using snocInd with
+    | nil => left; exact ⟨rfl, rfl⟩
+    | append_singleton vs v ih =>
+      right
+      have hstep : foldRB exact (vs ++ [v]) = stepRB exact (foldRB exact vs) v := by
+        simp [foldRB, foldRBWith, stepRB, List.foldl_append]
+      have hv : (if v.isAbsent then 0 else 1) = (if isPresent v then 1 else 0) := by cases v <;> rfl
+      rw [hstep, present_snoc]
+      rcases ih with ⟨rfl, hnone⟩ | ⟨b, hb, hx, hn⟩
+      · rw [hnone]; exact ⟨_, rfl, by simp [newRB, hv], by simp [newRB]⟩
+      · rw [hb]; exact ⟨_, rfl, by simp [hx, hv], by simp [hn]⟩
+  rcases key vs with ⟨hnil, _⟩ | ⟨b, hb, hx, hn⟩
+  · exact absurd hnil hne
+  · exact ⟨b, hb, by simp [resultRB, hx], hn⟩
 
 /-- the code AS FOUND (`resultRBOld`): the average was the sum divided by the number of RECORDS of the group
 (blockresult.go `sumRawVal / float64(bucket.count)`), exact characterisation … -/
-theorem rb_avg_old_divides_by_record_count (vs : List Val) (h : absIntSum (nums noParse vs) < 9223372036854775808)
-    (hne : nums noParse vs ≠ []) :
+theorem rb_avg_old_divides_by_record_count (vs : List Val) (h : absIntSum (nums (parseFast exact) vs) < 9223372036854775808)
+    (hne : nums (parseFast exact) vs ≠ []) :
     ∃ b, foldRB exact vs = some b ∧
-      (resultRBOld exact b).avg = .flt (ratSum (nums noParse vs) / (vs.length : Rat)) := by
-  rcases foldRB_sum vs h with ⟨hnil, _⟩ | ⟨b, hb, hn, hvne, hs, _⟩
+      (resultRBOld exact b).avg = .flt (ratSum (nums (parseFast exact) vs) / (vs.length : Rat)) := by
+  rcases foldRB_sum vs h with ⟨hnil, _⟩ | ⟨b, hb, hn, hvne, hs, _, _⟩
   · subst hnil; exact absurd rfl hne
   · refine ⟨b, hb, ?_⟩
-    have he : (nums noParse vs).isEmpty = false := by
-      cases hx : nums noParse vs with
+    have he : (nums (parseFast exact) vs).isEmpty = false := by
+      cases hx : nums (parseFast exact) vs with
       | nil => exact absurd hx hne
       | cons a r => rfl
     have hlen : vs.length ≠ 0 := by intro hl; exact hvne (List.length_eq_zero_iff.mp hl)
-    have hs' : b.sum = (sumSpec (nums noParse vs)).toCV := by rw [hs]; simp [rbSum, he]
-    have hr := sumSpec_toRat (nums noParse vs)
+    have hs' : b.sum = (sumSpec (nums (parseFast exact) vs)).toCV := by rw [hs]; simp [rbSum, he]
+    have hr := sumSpec_toRat (nums (parseFast exact) vs)
     simp only [resultRBOld, hs', hn]
-    cases hsp : sumSpec (nums noParse vs) <;> simp [hsp, Num.toCV, CV.float?, Num.toRat, hlen] at hr ⊢ <;> rw [hr]
+    cases hsp : sumSpec (nums (parseFast exact) vs) <;> simp [hsp, Num.toCV, CV.float?, Num.toRat, hlen] at hr ⊢ <;> rw [hr]
 
-/-- … so over the two events `x = 5` and `x absent` it answered 5/2, the fixed code answers 5; count(x) is 2 for both
-(recorded as stats/groupby-avg-count/record-count; the avg part repaired by patch c04-7, the count part still known) -/
+/-- … so over the two events `x = 5` and `x absent` it answered 5/2, the fixed code answers 5; count(x) was 2 — the records
+of the group (`resultRBCountOld`) — and is 1 since patch c04-11 (recorded as stats/groupby-avg-count/record-count; the avg
+part repaired by patch c04-7, the count part by c04-11) -/
 theorem rb_avg_old_counterexample :
     ∃ b, foldRB exact [.int 5, .absent] = some b ∧ (resultRBOld exact b).avg = .flt (5 / 2) ∧
-      (resultRB exact b).avg = .flt 5 ∧ (resultRB exact b).count = 2 ∧
+      (resultRB exact b).avg = .flt 5 ∧ (resultRB exact b).count = 1 ∧ (resultRBCountOld exact b).count = 2 ∧
       (5 : Rat) / 2 ≠ total (numbers [.int 5, .absent]) / ((numbers [.int 5, .absent]).length : Rat) := by
-  obtain ⟨b, hb, ha⟩ := rb_avg_old_divides_by_record_count [.int 5, .absent] (by decide) (by decide)
-  obtain ⟨b', hb', ha', hc'⟩ := rb_avg_eq_sum_div_numeric_count [.int 5, .absent] (by decide) (by decide)
+  have e1 : nums (parseFast exact) [.int 5, .absent] = [.int 5] := rfl
+  obtain ⟨b, hb, ha⟩ := rb_avg_old_divides_by_record_count [.int 5, .absent] (by rw [e1]; decide) (by rw [e1]; simp)
+  obtain ⟨b', hb', ha', hc'⟩ := rb_avg_eq_sum_div_numeric_count [.int 5, .absent] (by rw [e1]; decide) (by rw [e1]; simp)
+  obtain ⟨b'', hb'', _, hn''⟩ := rb_count_eq_present [.int 5, .absent] (by simp)
   have hbb : b' = b := by rw [hb] at hb'; exact (Option.some.inj hb').symm
-  subst hbb
-  have e1 : nums noParse [.int 5, .absent] = [.int 5] := rfl
+  have hbb2 : b'' = b := by rw [hb] at hb''; exact (Option.some.inj hb'').symm
+  subst hbb; subst hbb2
   have e2 : numbers [.int 5, .absent] = [(5 : Rat)] := rfl
-  refine ⟨b', hb, ?_, ?_, by simpa using hc', ?_⟩
+  have e3 : present [.int 5, .absent] = 1 := rfl
+  refine ⟨b'', hb, ?_, ?_, by rw [hc', e3], by simp [resultRBCountOld, hn''], ?_⟩
   · rw [ha, e1]; simp [ratSum, Num.toRat, Rat.add_zero]
   · rw [ha', e1]; simp [ratSum, Num.toRat, Rat.add_zero]; grind
   · rw [e2]; simp [total, Rat.add_zero]; grind
 
+/-- C04.3d (patch c04-13) the group-by bucket and the statistics without a by clause take the SAME values for numbers:
+the Sum cell of a group is the sum over `nums (parseFast exact)`, the very list `stats_fold_eq_spec` is about — numeric
+text included.  BEFORE the patch (`foldRBStrOld`) the bucket summed over `nums noParse`: no string counted, so
+`stats sum(x) by g` and `stats sum(x)` disagreed on a group that holds numeric text … -/
+theorem rb_sum_same_numbers_as_no_group (vs : List Val) (h : absIntSum (nums (parseFast exact) vs) < 9223372036854775808)
+    (hne : vs ≠ []) :
+    ∃ b, foldRB exact vs = some b ∧ b.sum = rbSum (nums (parseFast exact) vs) ∧ b.nc = (nums (parseFast exact) vs).length := by
+  rcases foldRB_sum vs h with ⟨hnil, _⟩ | ⟨b, hb, _, _, hs, hc, _⟩
+  · exact absurd hnil hne
+  · exact ⟨b, hb, hs, hc⟩
+
+theorem rb_sum_old_ignores_strings (vs : List Val) (h : absIntSum (nums noParse vs) < 9223372036854775808) (hne : vs ≠ []) :
+    ∃ b, foldRBStrOld exact vs = some b ∧ b.sum = rbSum (nums noParse vs) := by
+  rcases foldRBWith_sum noParse vs h with ⟨hnil, _⟩ | ⟨b, hb, _, _, hs, _, _⟩
+  · exact absurd hnil hne
+  · exact ⟨b, hb, hs⟩
+
+/-- … witness: the records `x = "5"` (text that is a number) and `x = 7`: the old bucket reports the sum 7 (and the
+average 7), the fixed one 12 (and 6), which is what `stats sum(x), avg(x)` without by reports -/
+theorem rb_numeric_string_old_counterexample :
+    (foldRBStrOld exact [.str [53], .int 7]).map (·.sum) = some (.int 7) ∧
+    (foldRB exact [.str [53], .int 7]).map (·.sum) = some (.flt 12) ∧
+    (foldRB exact [.str [53], .int 7]).map (·.nc) = some 2 ∧
+    (foldRBStrOld exact [.str [53], .int 7]).map (·.nc) = some 1 := by
+  have hp : parseFast exact [53] = some 5 := by
+    simp [parseFast, scanDec, takeDigits, isDigit, valFast, exact]; grind
+  refine ⟨by decide, ?_, ?_, by decide⟩
+  · simp [foldRB, foldRBWith, stepRBWith, Val.toCVWith, hp, newRB, sumStep, exact]; grind
+  · simp [foldRB, foldRBWith, stepRBWith, Val.toCVWith, hp, newRB, CV.isNumeric]
+
 /-- merge of group-by buckets (`MergeRunningBuckets`, what joins the per-segment / per-batch buckets of one group): the
-record count, the Sum cell and its numeric count of the merged bucket are those of the unsplit list, for every split of every list — so
-the numeric count, hence sum, count and average of a group do not depend on the segmentation -/
-theorem rb_merge_hom_count_sum (xs ys : List Val) (h : absIntSum (nums noParse (xs ++ ys)) < 9223372036854775808) :
-    (mergeRB exact (foldRB exact xs) (foldRB exact ys)).map (fun b => (b.n, b.sum, b.nc)) =
-      (foldRB exact (xs ++ ys)).map (fun b => (b.n, b.sum, b.nc)) :=
+record count, the Sum cell, its numeric count and the Count cell of the merged bucket are those of the unsplit list, for
+every split of every list — so sum, count(x) and average of a group do not depend on the segmentation -/
+theorem rb_merge_hom_count_sum (xs ys : List Val) (h : absIntSum (nums (parseFast exact) (xs ++ ys)) < 9223372036854775808) :
+    (mergeRB exact (foldRB exact xs) (foldRB exact ys)).map (fun b => (b.n, b.sum, b.nc, b.cx)) =
+      (foldRB exact (xs ++ ys)).map (fun b => (b.n, b.sum, b.nc, b.cx)) :=
   mergeRB_n_sum xs ys h
 
 /-- the code AS FOUND (`foldRBOld` / `mergeRBOld`): the group-by bucket's min / max over a measure field of mixed type
